@@ -541,6 +541,29 @@ theorem C19_genrun_distinct (hw : List UInt8) (c : Nat) (sec : Int) (nsec every 
       exact Nat.div_le_div_right (by omega)
     omega
 
+/-- the duplicate search the driver runs on a model run is correct: `none` only for pairwise distinct runs, and
+    `some (i, j)` names two positions `i < j` holding the same UUID -/
+theorem C19_genrun_verdict (us : List (List UInt8)) :
+    (firstDup us = none → us.Pairwise (· ≠ ·)) ∧
+    (∀ i j, firstDup us = some (i, j) → i < j ∧ ∃ u, us[i]? = some u ∧ us[j]? = some u) :=
+  ⟨(firstDup_spec us).2, (firstDup_spec us).1⟩
+
+/-- so the model's answer to a `genrun` op inside the hypothesis of `C19_genrun_distinct` is `distinct` -/
+theorem C19_genrun_answer_distinct (hw : List UInt8) (c : Nat) (sec : Int) (nsec every stepns n : Nat)
+    (he : 0 < every) (he' : every ≤ 16384) (hs : 100 ≤ stepns) (hsec : timeBase ≤ sec)
+    (hlt : (sec - timeBase) * 10000000 + ((nsec + n / every * stepns) / 100 : Nat) < 2 ^ 60) :
+    firstDup (genRun hw c (steppedReadings sec nsec every stepns n)) = none := by
+  have hp := C19_genrun_distinct hw c sec nsec every stepns n he he' hs hsec hlt
+  cases hf : firstDup (genRun hw c (steppedReadings sec nsec every stepns n)) with
+  | none => rfl
+  | some ij =>
+    obtain ⟨i, j⟩ := ij
+    obtain ⟨hij, u, hi, hj⟩ := (firstDup_spec _).1 i j hf
+    rw [List.pairwise_iff_getElem] at hp
+    obtain ⟨hi', hiu⟩ := List.getElem?_eq_some_iff.mp hi
+    obtain ⟨hj', hju⟩ := List.getElem?_eq_some_iff.mp hj
+    exact absurd (hiu.trans hju.symm) (hp i j hi' hj' hij)
+
 /-- non-vacuity: a run of 3 steps under a clock that stands still is distinct (the hypothesis is about steps
     16384 apart), and the readings of the stepped clock carry across a second -/
 example : (genRun [1, 2, 3, 4, 5, 6] 0xffffffff [(1700000000, 5), (1700000000, 5), (1700000000, 5)]).Pairwise (· ≠ ·) :=
